@@ -40,6 +40,38 @@ def networkx_roundtrip(part, tier):
         if (H.left_order(), H.right_order()) != (g['l'], g['r']) or sorted(H.edges()) != sorted(map(tuple, g['edges'])):
             part.case('c16.nx', 'networkx_roundtrip', g, 'BipartiteGraph -> networkx -> BipartiteGraph changed the graph')
         n_ok += 1
+    # networkx graphs that were NOT produced by to_networkx: any node order, either orientation of the edges,
+    # 'bipartite' attribute as int or as string
+    import networkx
+    for g in gen.bip_box([(1, 1), (2, 1), (1, 2), (2, 2), (3, 2), (2, 3)]):
+        l, r, E = g['l'], g['r'], [tuple(e) for e in g['edges']]
+        if l * r == 6 and len(E) % 3:
+            continue
+        for order in (0, 1, 2):
+            for flip in (0, 1):
+                for as_str in (False, True):
+                    left = [('L', u) for u in range(1, l + 1)]
+                    right = [('R', v) for v in range(1, r + 1)]
+                    nodes = left + right if order == 0 else (right + left if order == 1 else
+                                                           [x for pr in zip(left, right) for x in pr] + left[len(right):] + right[len(left):])
+                    N = networkx.Graph()
+                    for nd in nodes:
+                        side = 0 if nd[0] == 'L' else 1
+                        N.add_node(nd, bipartite=str(side) if as_str else side)
+                    for k, (u, v) in enumerate(E):
+                        a, b = ('L', u), ('R', v)
+                        if (k + flip) % 2:
+                            a, b = b, a
+                        N.add_edge(a, b)
+                    case = {'type': 'nx-bipartite', 'l': l, 'r': r, 'edges': g['edges'], 'order': order, 'flip': flip, 'as_str': as_str}
+                    try:
+                        H = BipartiteGraph.from_networkx(N)
+                        ok = (H.left_order(), H.right_order(), sorted(H.edges())) == (l, r, sorted(E))
+                    except Exception as e:  # noqa
+                        ok = False
+                    if not ok:
+                        part.case('c16.nx', 'networkx_roundtrip', case, 'BipartiteGraph.from_networkx misreads a hand-built networkx graph')
+                    n_ok += 1
     part.counts['enumerated_networkx_roundtrips'] += n_ok
 
 
@@ -47,6 +79,28 @@ def replay(case):
     if case['harness'] == 'c16.nx':
         from cnfgen.graphs import Graph, DirectedGraph, BipartiteGraph
         p = case['input']
+        if p.get('type') == 'nx-bipartite':
+            import networkx
+            l, r, E = p['l'], p['r'], [tuple(e) for e in p['edges']]
+            left = [('L', u) for u in range(1, l + 1)]
+            right = [('R', v) for v in range(1, r + 1)]
+            nodes = left + right if p['order'] == 0 else (right + left if p['order'] == 1 else
+                                                     [x for pr in zip(left, right) for x in pr] + left[len(right):] + right[len(left):])
+            N = networkx.Graph()
+            for nd in nodes:
+                side = 0 if nd[0] == 'L' else 1
+                N.add_node(nd, bipartite=str(side) if p['as_str'] else side)
+            for k, (u, v) in enumerate(E):
+                a, b = ('L', u), ('R', v)
+                if (k + p['flip']) % 2:
+                    a, b = b, a
+                N.add_edge(a, b)
+            try:
+                H = BipartiteGraph.from_networkx(N)
+                got = (H.left_order(), H.right_order(), sorted(H.edges()))
+            except Exception as e:  # noqa
+                return True, 'from_networkx raised %s: %s' % (type(e).__name__, e)
+            return got != (l, r, sorted(E)), 'from_networkx gave %s' % (got,)
         if p.get('type') == 'simple':
             G = gen.mk_graph(p)
             H = Graph.from_networkx(G.to_networkx())
